@@ -44,15 +44,16 @@ def _redshift_histogram(patch: Patch, binning: Binning) -> NDArray:
     """Worker function that computes a redshift histgram from a given patch and
     binning."""
     redshifts = patch.redshifts
-    # numpy histogram uses the bin edges as closed intervals on both sides
-    if binning.closed == "right":
-        mask = redshifts > binning.edges[0]
-    else:
-        mask = redshifts < binning.edges[-1]
+    # assign bins exactly as when building trees: np.digitize honours the closed
+    # side of the intervals, index 0 and len(binning) + 1 are outside of the binning
+    bin_idx = np.digitize(
+        redshifts, binning.edges, right=(binning.closed == "right")
+    )
+    mask = (bin_idx > 0) & (bin_idx <= len(binning))
 
     weights = patch.weights[mask] if patch.has_weights else None
 
-    counts, _ = np.histogram(redshifts[mask], binning.edges, weights=weights)
+    counts = np.bincount(bin_idx[mask] - 1, weights=weights, minlength=len(binning))
     return counts.astype(np.float64)
 
 
